@@ -169,7 +169,7 @@ def stage_lake(ctx, targets):
     return rc, out
 
 
-def stage_audit(ctx, mod):
+def stage_audit(ctx, mod, extra_audits=()):
     """returns (ok, obligations, discharged, axioms_seen, detail)"""
     # 1. forbidden tokens outside comments
     bad = []
@@ -184,9 +184,13 @@ def stage_audit(ctx, mod):
                 code = line.split("--")[0]
                 if FORBIDDEN.search(code):
                     bad.append("%s:%d: %s" % (os.path.relpath(p, LEAN), i + 1, line.strip()))
-    # 2. #print axioms
-    audit_file = os.path.join(LEAN, "Plonk", "Audit", mod + ".lean")
-    rc, out = sh(["lake", "env", "lean", audit_file], cwd=LEAN, timeout=1800)
+    # 2. #print axioms (one Lean process per audit file: proof files of different agents may not be importable together)
+    rc, out = 0, ""
+    for am in [mod] + list(extra_audits):
+        audit_file = os.path.join(LEAN, "Plonk", "Audit", am + ".lean")
+        rc1, out1 = sh(["lake", "env", "lean", audit_file], cwd=LEAN, timeout=1800)
+        rc = rc or rc1
+        out += out1
     thms = {}
     for m in re.finditer(r"'([^']+)' depends on axioms: \[([^\]]*)\]", out, flags=re.S):
         thms[m.group(1)] = set(x.strip() for x in m.group(2).replace("\n", " ").split(",") if x.strip())
@@ -253,7 +257,7 @@ def main():
     obligations = discharged = 0
     thm_names = []
     if not broken:
-        ok, obligations, discharged, axioms, thm_names, detail = stage_audit(ctx, prop)
+        ok, obligations, discharged, axioms, thm_names, detail = stage_audit(ctx, prop, getattr(mod, "EXTRA_AUDITS", ()))
         cov["axioms_seen"] = axioms
         if not ok:
             broken = ("audit", json.dumps(detail))
